@@ -74,8 +74,8 @@ CHECKS = {
                 rule="codec job: one case = up to 5 generated messages (key/value 0..300 B plus 4 KiB/70 KiB, times over the whole int64 microsecond range, offsets up to MaxInt64) x V1/V2 x file/mmap reader x four index layouts x both index containers: writer bytes == independent encoder for log and index, reported positions, Size, readers on independently encoded files, parser agreement on a damaged copy; history job: Stat and Log.Size against os.Stat after every step; non-trivial codec case = >=2 records or an empty key/value or a boundary time; history case = multi-segment with deletes; distinct by case hash. History job also checks at every close that index timestamps are a running maximum of the message times in the file from one carried value (any times). Boundary job: fixed enumeration of the largest accepted message sizes (64 MiB and neighbours) through both readers and through Publish/Consume/reopen with Recover/Check. Index-size job: fixed enumeration of index files of 4 KiB, 64 KiB, 256 KiB (thorough: 1 MiB) +- a few items in all four layouts and both containers read back item for item, and a segment of 11000 messages reopened with and without its index file. Codec damage includes changes that recompute the record checksum; the fuzz target compares each input also with all frame checksums recomputed"),
     "C14": dict(level="fault_enumeration", jobs=[J("TestC14", (4, 40), (16, 20)), J("FuzzDamageRead", (0, 0), (1, 90), kind="fuzz")],
                 rule="one evaluation = one damage of one .log file of a generated multi-segment V2 log (4..14 messages, deletes, index files intact): bit flip, 1-8 byte overwrite, truncation, zero-filled tail (quick: one position per record field + length-field high bits + 5 cut points per record; thorough: every position, all bits), then a fresh Open and Get/Consume at every offset, GetByKey/ConsumeByKey for every key, GetByTime at every microsecond, each compared with the same call on the undamaged copy and the model (safety, must-fail, unchanged, no panic, <=256 MiB per call); non-trivial = damage inside a record; distinct by (log hash, damage, field hit, segment role). Thorough adds a 90 s coverage-guided campaign (FuzzDamageRead: log x segment x position x 1-8 bytes) under the same oracle. A quarter of the in-place overwrites are applied under an open handle that has already read every record; after a third of the overwrites an undamaged offset of the damaged segment is deleted and everything re-read"),
-    "C18": dict(level="exploration", jobs=[J("TestC18", (4, 10000), (16, 100000)), J("TestC18Exhaustive", (3, 0), (8, 0), kind="plain", timeout=(900, 5400)), J("TestC18Free", (2, 300), (8, 3000))],
-                rule="one evaluation = one complete schedule of a cooperative scheduler inside a testing/synctest bubble: up to 8 waiters (ConsumeBlocking / ConsumeByKeyBlocking, raw and typed wrappers, offsets below/at/above NextOffset and relative), up to 3 publishers (incl. empty batches), cancellations and Close; every goroutine parks at each pause point of the notifier and the blocking wrappers, and each step (resume one parked goroutine / start a call / cancel / Close) is a rapid draw; additionally the complete choice tree is enumerated with an odometer for W=1,P=1 (plain, +cancel, +close, typed), W=1,P=0 (+cancel+close), W=1,P=2 (thorough: W=2,P=1 and W=2,P=1+close), and seeded free-running mixes run without pauses; oracle at every step: a returned waiter had a reason (offset below NextOffset / relative / overlapping Publish, Close, cancel), its result equals what Consume returned at the moment it left the wait, and at FULL quiescence no waiter is blocked that a completed Publish passed, whose context ended, or after Close completed; non-trivial = a Publish-notify, Close or cancel step was taken while a waiter stood between the fast-path check and its park; distinct by (configuration, choice sequence). Up to three other calls on the same handle (Sync, GC, Stat, NextOffset, Delete, Consume, Backup) may be placed anywhere in a schedule (also in three exhaustive configurations): no waiter may notice them; the wrapper is also opened on a non-empty log",
+    "C18": dict(level="exploration", jobs=[J("TestC18", (4, 10000), (16, 100000)), J("TestC18Exhaustive", (3, 0), (8, 0), kind="plain", timeout=(900, 5400)), J("TestC18Free", (2, 300), (8, 3000)), J("TestC18Macro", (4, 15000), (16, 150000))],
+                rule="one evaluation = one complete schedule of a cooperative scheduler inside a testing/synctest bubble: up to 8 waiters (ConsumeBlocking / ConsumeByKeyBlocking, raw and typed wrappers, offsets below/at/above NextOffset and relative), up to 3 publishers (incl. empty batches), cancellations and Close; every goroutine parks at each pause point of the notifier and the blocking wrappers, and each step (resume one parked goroutine / start a call / cancel / Close) is a rapid draw; additionally the complete choice tree is enumerated with an odometer for W=1,P=1 (plain, +cancel, +close, typed), W=1,P=0 (+cancel+close), W=1,P=2 (thorough: W=2,P=1 and W=2,P=1+close), and seeded free-running mixes run without pauses; oracle at every step: a returned waiter had a reason (offset below NextOffset / relative / overlapping Publish, Close, cancel), its result equals what Consume returned at the moment it left the wait, and at FULL quiescence no waiter is blocked that a completed Publish passed, whose context ended, or after Close completed; non-trivial = a Publish-notify, Close or cancel step was taken while a waiter stood between the fast-path check and its park; distinct by (configuration, choice sequence). Up to three other calls on the same handle (Sync, GC, Stat, NextOffset, Delete, Consume, Backup) may be placed anywhere in a schedule (also in three exhaustive configurations): no waiter may notice them; the wrapper is also opened on a non-empty log. Macro job: the same scheduler driven by macro steps drawn per case (start a waiter/publisher, run task i until it stands at pause point p, let task i finish or park, cancel task i), which keeps one goroutine parked at one point while others run through many - a uniformly random walk over single resumes practically never does",
                 level_note="interleavings at the granularity of the listed pause points (verif build tag); Go's select between two simultaneously ready wake-up causes is resolved by the runtime, not by the scheduler; virtual time, no wall clock"),
     "C19": dict(level="exploration", jobs=[J("TestC19Handles", (2, 5000), (8, 40000)), J("TestC19Hist", (2, 600), (8, 5000), steps=35)],
                 rule="handles job: one case = a sequence of open-RW/open-RO/close/publish/read-only queries/failing opens (flipped index flags, corrupt index with Check, missing directory) over three handle slots, checked against the lock matrix; history job: read-only sessions (1-3 handles, optional index removal) inside C01-style histories with full observation against the model, ErrReadonly, byte comparison of *.log; non-trivial = a failed open followed by a successful one, or >=2 simultaneous read-only handles (handles job) / a read-only session on a multi-segment log (history job); distinct by case hash. Handles job also: Backup (into the handle's own directory under four spellings, into another directory), GC and Sync on read-only handles with byte comparison of *.log; read-only open of a damaged head with Check/Recover; reads that fail on a damaged segment, the file repaired, reads again, Close, then a read-write Open must succeed; an Open parked inside its lock acquisition (the lock file made a FIFO) while the writer publishes into new segments and closes must see the writer's final state"),
